@@ -479,6 +479,12 @@ class SpecGen:
         else:
             nargs = r.randint(0 if not root else 1, 3)
             node["args"] = {"abc"[i]: self.pick_any() for i in range(nargs)}
+        if cfg.get("odd_returns") and not selector and r.random() < 0.25:
+            node["returns"] = "uncopyable"
+        elif cfg.get("returns_node") and not selector and r.random() < 0.25:
+            ds_before = [n["id"] for n in self.nodes if n["k"] == "dataset" and not n.get("abstract")]
+            if ds_before:
+                node["returns"] = {"node": r.choice(ds_before)}
         if cfg.get("partial_bodies") and not selector and node["args"] and r.random() < 0.3:
             # a partial body: undefined (raises) when one argument has one particular value
             by = {n["id"]: n for n in self.nodes}
@@ -650,6 +656,8 @@ def children(n):
         out.extend(n.get("effects_opt", []))
         if n.get("callback_opt"):
             out.append(n["callback_opt"])
+        if isinstance(n.get("returns"), dict):
+            out.append(n["returns"]["node"])  # (referred to, never evaluated: the object itself is the value)
         if isinstance(n.get("dispatch"), dict):
             out.append(n["dispatch"]["n"])
         for _, impl in n.get("overloads", []):
